@@ -1222,9 +1222,16 @@ func sliceIndexes(args []cty.Value) (int, int, bool, error) {
 	list, _ := args[0].Unmark()
 
 	// If it's a tuple then we always know the length by the type, but collections might be unknown or have unknown length
-	if list.Type().IsTupleType() || list.Length().IsKnown() {
-		length = list.LengthInt()
+	if list.Type().IsTupleType() {
+		length = list.Type().Length()
 		lengthKnown = true
+	} else if lenVal := list.Length(); lenVal.IsKnown() {
+		// The length can be known even if the list itself is not, if its
+		// refinements pin the length to a single value, so we must use the
+		// result of Length here rather than LengthInt.
+		if err := gocty.FromCtyValue(lenVal, &length); err == nil {
+			lengthKnown = true
+		}
 	}
 
 	if args[1].IsKnown() {
